@@ -7,17 +7,23 @@ import RModel.Lemmas.Signals
   an event does is the *generated* description of the handler bodies (`Gen/SignalHandlers.lean`).
 
   * `handlers_only_set_flag`, `flag_checked_after_command`, `prompt_guard_facts`: the facts extracted from
-    main.rs / interrupt.rs on every run (a `process::exit` added to a handler, a dropped flag check, a changed
-    exit code or a second user of the prompt guard breaks one of them by name).
+    main.rs / interrupt.rs / lock.rs on every run (a `process::exit` added to a handler, a dropped flag check, a flag
+    test moved back in front of the result, a changed exit code, a prompt exit that no longer releases the held
+    locks, or a second user of the prompt guard breaks one of them by name).
   * `signals_do_not_change_effects`: for ANY list of delivery points, any repetition, either signal, the final
-    world of a program without confirmation prompt equals the signal-free run's, no exit happens inside a handler,
-    and the flag is set iff some event occurred; `status_130_iff_signalled`: the exit status is 130 iff an event
-    occurred — *whatever* the command's own result (`main` checks the flag before it looks at the result).
-  * `prompt_exit_no_change`: a run of `pre ; prompt ; post` that exits inside a handler has performed exactly
-    `pre` (so a user tree that `pre` does not touch is unchanged) — and nothing of `post`, in particular not the
-    lock release.
-  * `C13_partial`: the property for every command that succeeds by itself and does not prompt (`-y`, apply, undo,
-    redo, replace -y).  `C13_full` is false today: `C13_witness_prompt_lock_left`, `C13_witness_failed_reports_130`.
+    world of a program without confirmation-prompt guard equals the signal-free run's, no exit happens inside a
+    handler, and the flag is set iff some event occurred.
+  * `status_130_iff_signalled`: the exit status is 130 iff an event occurred AND the command succeeded; a command
+    that fails reports its own status 1–3, signalled or not (`failed_command_keeps_its_status`).
+  * `prompt_exit_no_change` / `prompt_exit_releases_held_locks`: a run of `pre ; prompt ; post` that exits inside a
+    handler has performed exactly `pre`, then released the held locks; nothing of `post` happened.
+  * `unguarded_prompt_never_exits`, `sigterm_never_exits`, `sigterm_at_prompt_completes`: what holds at `replace`'s own
+    prompt (no guard: SIGINT and SIGTERM only store the flag, the process keeps waiting for the answer, then ends
+    with 130) and for SIGTERM at `rename`'s prompt (same).
+  * `C13_full_holds`: the property for every command of the shapes that exist (no guarded prompt, or lock/probe ;
+    prompt ; rest), succeeding or failing by itself.
+  * `before_fix_prompt_lock_left`, `before_fix_failed_reports_130`: the two defects repaired by d01db83 / 279b830,
+    as facts about the model instantiated with the old handler table / the old place of the flag test.
 -/
 
 namespace C13
@@ -26,18 +32,19 @@ open Signals
 -- generated facts ----------------------------------------------------------------------------------
 
 /-- Neither handler exits unconditionally, both store the flag, neither calls anything else; only SIGINT has an
-    exit under the prompt guard, with the interrupt code. -/
+    exit under the prompt guard, with the interrupt code, and it releases the held locks first. -/
 theorem handlers_only_set_flag :
     (∀ s, (genHandlers s).exitAlways = none ∧ (genHandlers s).setsFlag = true ∧ (genHandlers s).otherCalls = 0) ∧
-    (genHandlers .int).exitUnderPrompt = some 130 ∧ (genHandlers .term).exitUnderPrompt = none ∧
-    Gen.SignalHandlers.extraHandlers = 0 := by
-  refine ⟨?_, by decide, by decide, by decide⟩
+    (genHandlers .int).exitUnderPrompt = some 130 ∧ (genHandlers .int).releasesLocks = true ∧
+    (genHandlers .term).exitUnderPrompt = none ∧
+    Gen.SignalHandlers.extraHandlers = 0 ∧ Gen.SignalHandlers.heldLocksReleasable = true := by
+  refine ⟨?_, by decide, by decide, by decide, by decide, by decide⟩
   intro s; cases s <;> decide
 
-/-- The flag is examined after the command returned and before its result is, and the code is 130;
-    the command's own failure codes are 1, 2, 3. -/
+/-- The flag is read after the command returned and tested only in the `Ok` arm of the result match; the code is
+    130; the command's own failure codes are 1, 2, 3. -/
 theorem flag_checked_after_command :
-    Gen.SignalHandlers.flagCheckAfterCommand = true ∧ Gen.SignalHandlers.flagCheckBeforeResultMatch = true ∧
+    Gen.SignalHandlers.flagScope = .okOnly ∧
     Gen.SignalHandlers.interruptExitCode = 130 ∧ Gen.SignalHandlers.errorExitCodes = [1, 2, 3] := by decide
 
 /-- No command but the hidden `test-lock` receives the flag; the prompt guard is well formed and is activated
@@ -48,63 +55,84 @@ theorem prompt_guard_facts :
 
 variable {ε ω : Type}
 
+theorem gen_noExitAlways : NoExitAlways genHandlers := fun s => (handlers_only_set_flag.1 s).1
+
 -- the property theorems --------------------------------------------------------------------------
 
 /-- **Signals do not change effects.**  For every handler table in which no handler exits unconditionally, every
-    world, every meaning of effects, and every run `items` of a program without confirmation prompt — signal
+    world, every meaning of effects, and every run `items` of a program without confirmation-prompt guard — signal
     events at ANY positions, any number of them, either signal — the final world is the signal-free run's, no
     exit happened inside a handler, and the flag is set iff a flag-storing event occurred. -/
-theorem signals_do_not_change_effects (H : Handlers) (hH : NoExitAlways H) (ap : ε → ω → ω) (w : ω)
+theorem signals_do_not_change_effects (H : Handlers) (hH : NoExitAlways H) (ap : ε → ω → ω) (rel : ω → ω) (w : ω)
     (items : List (Item ε)) (hnp : ∀ i ∈ items, isPrompt i = false) :
-    (run H ap w items).world = (run H ap w (erase items)).world ∧
-    (run H ap w items).exited = none ∧
-    (run H ap w items).flag = flagged H items := by
-  have h1 := runFrom_safe H ap items { world := w } rfl (safe_noPrompt H hH items hnp)
-  have h2 := runFrom_safe H ap (erase items) { world := w } rfl (safe_erase H false items)
+    (run H ap rel w items).world = (run H ap rel w (erase items)).world ∧
+    (run H ap rel w items).exited = none ∧
+    (run H ap rel w items).flag = flagged H items := by
+  have h1 := runFrom_safe H ap rel items { world := w } rfl (safe_noPrompt H hH items hnp)
+  have h2 := runFrom_safe H ap rel (erase items) { world := w } rfl (safe_erase H false items)
   refine ⟨?_, h1.2.1, by simpa [run] using h1.2.2⟩
   simp only [run]
   rw [h1.1, h2.1, effects_erase]
 
-example : (run genHandlers apEff {} [.sig .int, .eff (.user 0), .sig .term, .sig .term, .eff .history]).world
-    = (run genHandlers apEff {} [.eff (.user 0), .eff .history]).world := by decide
+example : (run genHandlers apEff relWorld {} [.sig .int, .eff (.user 0), .sig .term, .sig .term, .eff .history]).world
+    = (run genHandlers apEff relWorld {} [.eff (.user 0), .eff .history]).world := by decide
 
-/-- With the generated handlers and the generated tail of `main`: the exit status of a run without prompt is 130
-    iff at least one signal event occurred, and the command's own code `res` (0, or 1–3 for a failure) otherwise.
-    A failing command that was signalled reports 130. -/
-theorem status_130_iff_signalled (ap : ε → ω → ω) (w : ω) (res : Nat) (items : List (Item ε))
+theorem gen_flagged (items : List (Item ε)) : flagged genHandlers items = items.any isSig := by
+  unfold flagged
+  congr 1
+  funext i
+  cases i with
+  | sig s => simp [isSig, (handlers_only_set_flag.1 s).2.1]
+  | _ => simp [isSig]
+
+/-- With the generated handlers and the generated tail of `main`: the exit status of a run without prompt guard is
+    130 iff at least one signal event occurred and the command succeeded (`res = 0`); otherwise it is the command's
+    own status. -/
+theorem status_130_iff_signalled (ap : ε → ω → ω) (rel : ω → ω) (w : ω) (res : Nat) (items : List (Item ε))
     (hnp : ∀ i ∈ items, isPrompt i = false) :
-    genStatus res (run genHandlers ap w items) = (if items.any isSig then 130 else res) := by
-  have hH : NoExitAlways genHandlers := fun s => (handlers_only_set_flag.1 s).1
-  obtain ⟨_, he, hf⟩ := signals_do_not_change_effects genHandlers hH ap w items hnp
-  have hfl : flagged genHandlers items = items.any isSig := by
-    unfold flagged
-    congr 1
-    funext i
-    cases i with
-    | sig s => simp [isSig, (handlers_only_set_flag.1 s).2.1]
-    | _ => simp [isSig]
+    genStatus res (run genHandlers ap rel w items) = (if items.any isSig && res == 0 then 130 else res) := by
+  obtain ⟨_, he, hf⟩ := signals_do_not_change_effects genHandlers gen_noExitAlways ap rel w items hnp
   unfold genStatus status
-  rw [he, hf, hfl]
+  rw [he, hf, gen_flagged]
   have := flag_checked_after_command
-  simp [this.1, this.2.1, this.2.2.1]
+  simp [this.1, this.2.1]
 
-example : genStatus 3 (run genHandlers apEff {} [.eff (.user 0), .sig .term]) = 130 := by decide
-example : genStatus 3 (run genHandlers apEff {} [.eff (.user 0)]) = 3 := by decide
+/-- A command that fails by itself (status 1–3) reports that status, signalled or not. -/
+theorem failed_command_keeps_its_status (ap : ε → ω → ω) (rel : ω → ω) (w : ω) (res : Nat) (hres : res ≠ 0)
+    (items : List (Item ε)) (hnp : ∀ i ∈ items, isPrompt i = false) :
+    genStatus res (run genHandlers ap rel w items) = res := by
+  rw [status_130_iff_signalled ap rel w res items hnp]
+  have : (res == 0) = false := by simp [hres]
+  simp [this]
+
+example : genStatus 3 (run genHandlers apEff relWorld {} [.eff (.user 0), .sig .term]) = 3 := by decide
+example : genStatus 0 (run genHandlers apEff relWorld {} [.eff (.user 0), .sig .term]) = 130 := by decide
+example : genStatus 0 (run genHandlers apEff relWorld {} [.eff (.user 0)]) = 0 := by decide
 
 /-- Any postcondition of the signal-free run (tree complete, history entry written, lock released, no temp file
     left …) holds of every signalled run of the same program. -/
-theorem signals_preserve_postconditions (ap : ε → ω → ω) (w : ω) (items : List (Item ε))
-    (hnp : ∀ i ∈ items, isPrompt i = false) (Q : ω → Prop) (hq : Q (run genHandlers ap w (erase items)).world) :
-    Q (run genHandlers ap w items).world := by
-  have hH : NoExitAlways genHandlers := fun s => (handlers_only_set_flag.1 s).1
-  rw [(signals_do_not_change_effects genHandlers hH ap w items hnp).1]; exact hq
+theorem signals_preserve_postconditions (ap : ε → ω → ω) (rel : ω → ω) (w : ω) (items : List (Item ε))
+    (hnp : ∀ i ∈ items, isPrompt i = false) (Q : ω → Prop)
+    (hq : Q (run genHandlers ap rel w (erase items)).world) :
+    Q (run genHandlers ap rel w items).world := by
+  rw [(signals_do_not_change_effects genHandlers gen_noExitAlways ap rel w items hnp).1]; exact hq
 
-/-- SIGTERM events never exit inside the handler, prompt or not: a program *with* a prompt that only ever receives
-    SIGTERM performs all its effects (the process keeps waiting for the answer). -/
-theorem sigterm_never_exits (ap : ε → ω → ω) (w : ω) (items : List (Item ε))
+/-- `replace` asks "Apply these changes? [y/N]" without activating the prompt guard: in the model its program has no
+    guard steps, so neither signal ever exits inside the handler there — the flag is stored, the process keeps
+    waiting for the answer, performs (or declines) the operation and then ends with 130. -/
+theorem unguarded_prompt_never_exits (ap : ε → ω → ω) (rel : ω → ω) (w : ω) (items : List (Item ε))
+    (hnp : ∀ i ∈ items, isPrompt i = false) :
+    (run genHandlers ap rel w items).exited = none ∧
+    (run genHandlers ap rel w items).world = (run genHandlers ap rel w (erase items)).world :=
+  ⟨(signals_do_not_change_effects genHandlers gen_noExitAlways ap rel w items hnp).2.1,
+   (signals_do_not_change_effects genHandlers gen_noExitAlways ap rel w items hnp).1⟩
+
+/-- SIGTERM events never exit inside the handler, prompt guard or not: a program *with* a guarded prompt that only
+    ever receives SIGTERM performs all its effects (the process keeps waiting for the answer). -/
+theorem sigterm_never_exits (ap : ε → ω → ω) (rel : ω → ω) (w : ω) (items : List (Item ε))
     (hterm : ∀ i ∈ items, ∀ s, i = .sig s → s = .term) :
-    (run genHandlers ap w items).world = (run genHandlers ap w (erase items)).world ∧
-    (run genHandlers ap w items).exited = none := by
+    (run genHandlers ap rel w items).world = (run genHandlers ap rel w (erase items)).world ∧
+    (run genHandlers ap rel w items).exited = none := by
   have hs : ∀ (p : Bool) (l : List (Item ε)), (∀ i ∈ l, ∀ s, i = .sig s → s = .term) → safe genHandlers p l = true := by
     intro p l
     induction l generalizing p with
@@ -120,37 +148,39 @@ theorem sigterm_never_exits (ap : ε → ω → ω) (w : ω) (items : List (Item
         have : s = .term := h _ List.mem_cons_self s rfl
         subst this
         have h3 := handlers_only_set_flag
-        simp [safe, hr p, (h3.1 .term).1, h3.2.2.1]
-  have h1 := runFrom_safe genHandlers ap items { world := w } rfl (hs false items hterm)
-  have h2 := runFrom_safe genHandlers ap (erase items) { world := w } rfl (safe_erase genHandlers false items)
+        simp [safe, hr p, (h3.1 .term).1, h3.2.2.2.1]
+  have h1 := runFrom_safe genHandlers ap rel items { world := w } rfl (hs false items hterm)
+  have h2 := runFrom_safe genHandlers ap rel (erase items) { world := w } rfl (safe_erase genHandlers false items)
   refine ⟨?_, h1.2.1⟩
   simp only [run]
   rw [h1.1, h2.1, effects_erase]
 
 -- the confirmation prompt ------------------------------------------------------------------------
 
-/-- **Exit during the prompt changes nothing but `pre`.**  For every run of `pre ; prompt ; post` (signal events
-    anywhere): if the process exited inside a handler, the world is exactly `pre` applied — no effect of `post`
-    happened, in particular no lock release — and the code is one a handler has under the prompt guard;
-    if it did not, the world is the complete `pre ++ post`. -/
-theorem prompt_exit_no_change (H : Handlers) (hH : NoExitAlways H) (ap : ε → ω → ω) (pre post : List ε)
+/-- **Exit during the prompt performs `pre` and the lock release, nothing else.**  For every run of
+    `pre ; prompt ; post` (signal events anywhere): if the process exited inside a handler, the world is `pre`
+    applied, followed by what that handler does before it exits (release of the held locks, if it does that) — no
+    effect of `post` happened — and the code is the one that handler has under the prompt guard; if it did not
+    exit there, the world is the complete `pre ++ post`. -/
+theorem prompt_exit_no_change (H : Handlers) (hH : NoExitAlways H) (ap : ε → ω → ω) (rel : ω → ω) (pre post : List ε)
     (items : List (Item ε)) :
     ∀ st : St ω, st.exited = none → st.prompt = false → erase items = withPrompt pre post →
-      ((runFrom H ap st items).exited = none →
-        (runFrom H ap st items).world = applyAll ap st.world (pre ++ post)) ∧
-      (∀ c, (runFrom H ap st items).exited = some c →
-        (runFrom H ap st items).world = applyAll ap st.world pre ∧ ∃ s, (H s).exitUnderPrompt = some c) := by
+      ((runFrom H ap rel st items).exited = none →
+        (runFrom H ap rel st items).world = applyAll ap st.world (pre ++ post)) ∧
+      (∀ c, (runFrom H ap rel st items).exited = some c →
+        ∃ s, (H s).exitUnderPrompt = some c ∧
+          (runFrom H ap rel st items).world = exitWorld rel (H s) (applyAll ap st.world pre)) := by
   induction items generalizing pre with
   | nil => intro st _ _ h; cases pre <;> simp [erase, withPrompt] at h
   | cons i r ih =>
     intro st he hp herase
-    have hstep : ∀ st' : St ω, step H ap st i = st' → runFrom H ap st (i :: r) = runFrom H ap st' r := by
+    have hstep : ∀ st' : St ω, step H ap rel st i = st' → runFrom H ap rel st (i :: r) = runFrom H ap rel st' r := by
       intro st' h; simp [runFrom, List.foldl_cons, h]
     cases i with
     | sig s =>
       have ht : erase r = withPrompt pre post := by simpa [erase, isSig] using herase
-      have h1 : step H ap st (.sig s) = (if (H s).setsFlag then { st with flag := true } else st) := by
-        simp [step, he, handle_safe (H s) st (hH s) (Or.inl hp)]
+      have h1 : step H ap rel st (.sig s) = (if (H s).setsFlag then { st with flag := true } else st) := by
+        simp [step, he, handle_safe rel (H s) st (hH s) (Or.inl hp)]
       rw [hstep _ h1]
       cases hf : (H s).setsFlag with
       | true => simpa [hf] using ih pre { st with flag := true } he hp ht
@@ -162,7 +192,7 @@ theorem prompt_exit_no_change (H : Handlers) (hH : NoExitAlways H) (ap : ε → 
         have hh : e = e' ∧ erase r = withPrompt pre' post := by
           simpa [erase, isSig, withPrompt] using herase
         obtain ⟨rfl, ht⟩ := hh
-        have h1 : step H ap st (.eff e) = { st with world := ap e st.world } := by simp [step, he]
+        have h1 : step H ap rel st (.eff e) = { st with world := ap e st.world } := by simp [step, he]
         rw [hstep _ h1]
         have := ih pre' { st with world := ap e st.world } he hp ht
         simpa [applyAll] using this
@@ -172,84 +202,164 @@ theorem prompt_exit_no_change (H : Handlers) (hH : NoExitAlways H) (ap : ε → 
       | nil =>
         have ht : erase r = .promptOff :: post.map .eff := by
           simpa [erase, isSig, withPrompt] using herase
-        have h1 : step H ap st .promptOn = { st with prompt := true } := by simp [step, he]
+        have h1 : step H ap rel st .promptOn = { st with prompt := true } := by simp [step, he]
         rw [hstep _ h1]
-        have := in_prompt H hH ap post r { st with prompt := true } he rfl ht
+        have := in_prompt H hH ap rel post r { st with prompt := true } he rfl ht
         simpa [applyAll] using this
     | promptOff =>
       cases pre <;> simp [erase, isSig, withPrompt] at herase
 
-/-- Corollary for the generated handlers: an exit inside the prompt has status 130 and leaves every observation
-    `user` of the world that the pre-prompt effects do not change (the user tree: before the prompt only the lock
-    and the probe directory are touched) exactly as it was. -/
-theorem prompt_exit_user_tree_unchanged {τ : Type} (ap : ε → ω → ω) (user : ω → τ) (pre post : List ε)
-    (hpre : ∀ e ∈ pre, ∀ w, user (ap e w) = user w) (w : ω) (items : List (Item ε))
-    (herase : erase items = withPrompt pre post) (c : Nat)
-    (hex : (run genHandlers ap w items).exited = some c) :
-    user (run genHandlers ap w items).world = user w ∧ c = 130 := by
-  have hH : NoExitAlways genHandlers := fun s => (handlers_only_set_flag.1 s).1
-  have h := (prompt_exit_no_change genHandlers hH ap pre post items { world := w } rfl rfl herase).2 c hex
-  obtain ⟨hw, s, hs⟩ := h
-  constructor
-  · simp only [run]; rw [hw]
-    clear hw hex herase
-    induction pre generalizing w with
-    | nil => rfl
-    | cons e r ih =>
-      simp only [applyAll, List.foldl_cons]
-      have h1 := ih (fun e' he' => hpre e' (List.mem_cons_of_mem _ he')) (ap e w)
-      simp only [applyAll] at h1
-      rw [h1, hpre e List.mem_cons_self]
-  · have h3 := handlers_only_set_flag
-    cases s with
-    | int => rw [h3.2.1] at hs; cases hs; rfl
-    | term => rw [h3.2.2.1] at hs; cases hs
+/-- **The prompt exit releases the held locks** (generated handlers): an exit inside a handler during
+    `pre ; prompt ; post` has status 130 and leaves the world at `rel (pre applied)` — `rel` being what
+    `lock::release_held_locks()` does. -/
+theorem prompt_exit_releases_held_locks (ap : ε → ω → ω) (rel : ω → ω) (pre post : List ε) (w : ω)
+    (items : List (Item ε)) (herase : erase items = withPrompt pre post) (c : Nat)
+    (hex : (run genHandlers ap rel w items).exited = some c) :
+    c = 130 ∧ (run genHandlers ap rel w items).world = rel (applyAll ap w pre) := by
+  obtain ⟨s, hs, hw⟩ :=
+    (prompt_exit_no_change genHandlers gen_noExitAlways ap rel pre post items { world := w } rfl rfl herase).2 c hex
+  have h3 := handlers_only_set_flag
+  cases s with
+  | int =>
+    rw [h3.2.1] at hs
+    refine ⟨by cases hs; rfl, ?_⟩
+    simp only [run]; rw [hw]; simp [exitWorld, h3.2.2.1]
+  | term => rw [h3.2.2.2.1] at hs; cases hs
 
--- the concrete command family, the full statement, the guard and the witnesses -----------------------------
+/-- Corollary: every observation `user` of the world that neither the pre-prompt effects nor the lock release change
+    (the user tree: before the prompt only the lock and the probe directory are touched) is exactly as it was. -/
+theorem prompt_exit_user_tree_unchanged {τ : Type} (ap : ε → ω → ω) (rel : ω → ω) (user : ω → τ) (pre post : List ε)
+    (hpre : ∀ e ∈ pre, ∀ w, user (ap e w) = user w) (hrel : ∀ w, user (rel w) = user w) (w : ω)
+    (items : List (Item ε)) (herase : erase items = withPrompt pre post) (c : Nat)
+    (hex : (run genHandlers ap rel w items).exited = some c) :
+    user (run genHandlers ap rel w items).world = user w ∧ c = 130 := by
+  obtain ⟨hc, hw⟩ := prompt_exit_releases_held_locks ap rel pre post w items herase c hex
+  refine ⟨?_, hc⟩
+  rw [hw, hrel]
+  clear hw hex herase
+  induction pre generalizing w with
+  | nil => rfl
+  | cons e r ih =>
+    simp only [applyAll, List.foldl_cons]
+    have h1 := ih (fun e' he' => hpre e' (List.mem_cons_of_mem _ he')) (ap e w)
+    simp only [applyAll] at h1
+    rw [h1, hpre e List.mem_cons_self]
 
-/-- a command as the check sees it: its program over the concrete effects, the status it ends with by itself,
-    and the user-tree calls of the complete operation -/
+-- the concrete command family and the full statement ----------------------------------------------------
+
+/-- a command as the check sees it: its program over the concrete effects (one per traced call) and the status it
+    ends with by itself -/
 structure Cmd where
   prog : List (Item Eff)
   res : Nat
   deriving Repr
 
-def final (c : Cmd) (w0 : World) : World := (run genHandlers apEff w0 c.prog).world
+def final (c : Cmd) (w0 : World) : World := (run genHandlers apEff relWorld w0 c.prog).world
 
 /-- the description is sane: run alone, the command releases the lock; if it reports success it has written its
     history entry -/
 def Sane (c : Cmd) (w0 : World) : Prop :=
   (final c w0).lock = false ∧ (c.res = 0 → (final c w0).history = w0.history + 1)
 
-/-- what the property demands of a signalled run -/
+/-- the shapes that exist: no guarded prompt at all (rename -y, apply, undo, redo, replace with or without -y), or
+    `rename` without -y: lock acquisition and probe (no user-tree or history call), the guarded prompt, the rest -/
+def Shape13 (c : Cmd) : Prop :=
+  (∀ i ∈ c.prog, isPrompt i = false) ∨
+  ∃ pre post, c.prog = withPrompt pre post ∧ ∀ e ∈ pre, e = .lockCreate ∨ e = .other
+
+/-- what the property demands of a signalled run:
+    exit inside the handler — status 130, no change at all, lock released;
+    a command that succeeds by itself — the complete operation with its history entry, lock released, status 130;
+    a command that fails by itself — exactly what it does and reports without the signal (whether *that* leaves a
+    partial tree is C04's subject, not the signal's doing). -/
 def Good (c : Cmd) (w0 : World) (r : St World) : Prop :=
-  ((r.world.user = w0.user ∧ r.world.history = w0.history) ∨
-   (r.world.user = (final c w0).user ∧ r.world.history = w0.history + 1)) ∧
-  r.world.lock = false ∧ genStatus c.res r = 130
+  match r.exited with
+  | some code => code = 130 ∧ r.world.user = w0.user ∧ r.world.history = w0.history ∧ r.world.lock = false
+  | none =>
+    if c.res = 0 then
+      r.world.user = (final c w0).user ∧ r.world.history = w0.history + 1 ∧ r.world.lock = false ∧ genStatus c.res r = 130
+    else r.world = final c w0 ∧ genStatus c.res r = c.res
 
-/-- C13 at full strength: every sane command, every run with at least one signal event.  False today. -/
+instance (c : Cmd) (w0 : World) (r : St World) : Decidable (Good c w0 r) := by
+  unfold Good
+  split <;> infer_instance
+
+/-- C13 at full strength: every sane command of an existing shape, every run with at least one signal event. -/
 def C13_full : Prop :=
-  ∀ (c : Cmd) (w0 : World) (items : List (Item Eff)), Sane c w0 → erase items = c.prog → items.any isSig = true →
-    Good c w0 (run genHandlers apEff w0 items)
+  ∀ (c : Cmd) (w0 : World) (items : List (Item Eff)), Shape13 c → Sane c w0 → erase items = c.prog →
+    items.any isSig = true → Good c w0 (run genHandlers apEff relWorld w0 items)
 
-/-- the guard: the command succeeds by itself and has no confirmation prompt -/
-def G13 (c : Cmd) : Prop := c.res = 0 ∧ ∀ i ∈ c.prog, isPrompt i = false
+theorem C13_full_holds : C13_full := by
+  intro c w0 items hshape hsane herase hsig
+  rcases hshape with hnp0 | ⟨pre, post, hprog, hpre⟩
+  · -- no guarded prompt
+    have hnp : ∀ i ∈ items, isPrompt i = false := by
+      intro i hi
+      cases i with
+      | eff e => rfl
+      | sig s => rfl
+      | promptOn => exact hnp0 _ (by rw [← herase]; simp [erase, isSig, hi])
+      | promptOff => exact hnp0 _ (by rw [← herase]; simp [erase, isSig, hi])
+    obtain ⟨hw0, hex, _⟩ := signals_do_not_change_effects genHandlers gen_noExitAlways apEff relWorld w0 items hnp
+    have hw : (run genHandlers apEff relWorld w0 items).world = final c w0 := by rw [hw0, herase]; rfl
+    have hst := status_130_iff_signalled apEff relWorld w0 c.res items hnp
+    unfold Good
+    rw [hex]
+    by_cases hr : c.res = 0
+    · simp only [hr, if_true]
+      refine ⟨by rw [hw], by rw [hw]; exact hsane.2 hr, by rw [hw]; exact hsane.1, ?_⟩
+      rw [hr] at hst; rw [hst, hsig]; rfl
+    · simp only [hr, if_false]
+      refine ⟨hw, ?_⟩
+      rw [hst]
+      have : (c.res == 0) = false := by simp [hr]
+      simp [this]
+  · -- lock/probe ; guarded prompt ; rest
+    have herase' : erase items = withPrompt pre post := by rw [herase, hprog]
+    have hmain := prompt_exit_no_change genHandlers gen_noExitAlways apEff relWorld pre post items
+      { world := w0 } rfl rfl herase'
+    -- the signal-free run performs pre ++ post
+    have hfin : final c w0 = applyAll apEff w0 (pre ++ post) := by
+      have hs := runFrom_safe genHandlers apEff relWorld (withPrompt pre post) { world := w0 } rfl
+        (safe_noSig genHandlers _ (by
+          intro i hi
+          simp only [withPrompt, List.mem_append, List.mem_map, List.mem_cons, List.not_mem_nil, or_false] at hi
+          rcases hi with (⟨e, _, rfl⟩ | rfl | rfl) | ⟨e, _, rfl⟩ <;> rfl) false)
+      unfold final run
+      rw [hprog, hs.1, effects_withPrompt]
+    unfold Good
+    cases hex : (run genHandlers apEff relWorld w0 items).exited with
+    | some code =>
+      obtain ⟨hc, hw⟩ := prompt_exit_releases_held_locks apEff relWorld pre post w0 items herase' code hex
+      have hk := pre_keeps_user pre hpre w0
+      have hrl := relWorld_facts (applyAll apEff w0 pre)
+      simp only
+      rw [hw]
+      exact ⟨hc, by rw [hrl.2.1, hk.1], by rw [hrl.2.2, hk.2], hrl.1⟩
+    | none =>
+      have hw : (run genHandlers apEff relWorld w0 items).world = final c w0 := by
+        rw [hfin]; exact hmain.1 hex
+      have hflag := runFrom_flag genHandlers gen_noExitAlways (fun s => (handlers_only_set_flag.1 s).2.1)
+        apEff relWorld items { world := w0 } rfl hex
+      have hflag' : (run genHandlers apEff relWorld w0 items).flag = true := by
+        simp only [run]; rw [hflag, hsig]; rfl
+      have hst : genStatus c.res (run genHandlers apEff relWorld w0 items) = (if c.res = 0 then 130 else c.res) := by
+        unfold genStatus status
+        rw [hex, hflag']
+        have := flag_checked_after_command
+        rw [this.1, this.2.1]
+        by_cases hr : c.res = 0 <;> simp [hr]
+      simp only
+      by_cases hr : c.res = 0
+      · rw [hr] at hst
+        simp only [hr, if_true]
+        refine ⟨by rw [hw], by rw [hw]; exact hsane.2 hr, by rw [hw]; exact hsane.1, ?_⟩
+        rw [hst]; rfl
+      · simp only [hr, if_false]
+        refine ⟨hw, ?_⟩
+        rw [hst]; simp [hr]
 
-theorem C13_partial (c : Cmd) (w0 : World) (items : List (Item Eff)) (hg : G13 c) (hs : Sane c w0)
-    (he : erase items = c.prog) (hsig : items.any isSig = true) :
-    Good c w0 (run genHandlers apEff w0 items) := by
-  have hnp : ∀ i ∈ items, isPrompt i = false := by
-    intro i hi
-    cases i with
-    | eff e => rfl
-    | sig s => rfl
-    | promptOn => exact hg.2 _ (by rw [← he]; simp [erase, isSig, hi])
-    | promptOff => exact hg.2 _ (by rw [← he]; simp [erase, isSig, hi])
-  have hH : NoExitAlways genHandlers := fun s => (handlers_only_set_flag.1 s).1
-  have hw : (run genHandlers apEff w0 items).world = final c w0 := by
-    rw [(signals_do_not_change_effects genHandlers hH apEff w0 items hnp).1, he]; rfl
-  refine ⟨Or.inr ⟨by rw [hw], by rw [hw]; exact hs.2 hg.1⟩, by rw [hw]; exact hs.1, ?_⟩
-  rw [status_130_iff_signalled apEff w0 c.res items hnp, hsig]; rfl
+-- concrete instances (non-vacuity) and the repaired defects --------------------------------------------------
 
 /-- `rename -y` on one edited file and one rename, as traced: lock, probe, edits, history, unlock -/
 def renameYes : Cmd :=
@@ -257,64 +367,61 @@ def renameYes : Cmd :=
              .eff .other, .eff .lockRemove],
     res := 0 }
 
-example : G13 renameYes ∧ Sane renameYes {} := by
-  refine ⟨⟨rfl, by decide⟩, by unfold Sane final; decide⟩
+example : Shape13 renameYes ∧ Sane renameYes {} := by
+  refine ⟨Or.inl (by decide), by unfold Sane final; decide⟩
 
-example : Good renameYes {} (run genHandlers apEff {} (deliverAt renameYes.prog 4 .int 3)) := by
-  refine ⟨Or.inr (by decide), by decide, by decide⟩
+example : Good renameYes {} (run genHandlers apEff relWorld {} (deliverAt renameYes.prog 4 .int 3)) := by
+  decide
 
 /-- `rename` without `-y`: the same with the confirmation prompt after lock and probe -/
 def renameAsk : Cmd :=
   { prog := withPrompt [.other, .lockCreate, .other] [.user 0, .user 1, .other, .history, .other, .lockRemove],
     res := 0 }
 
-/-- **Witness (finding prompt_exit_leaves_lock).**  SIGINT while the confirmation prompt is active: the handler
-    calls `process::exit(130)`; the user tree is untouched, the status is 130, but `LockFile::drop` never runs and
-    the lock file stays. -/
-def promptIntRun : St World := run genHandlers apEff {} (deliverAt renameAsk.prog 4 .int 1)
+example : Shape13 renameAsk ∧ Sane renameAsk {} := by
+  refine ⟨Or.inr ⟨_, _, rfl, by decide⟩, by unfold Sane final; decide⟩
 
-theorem C13_witness_prompt_lock_left :
-    erase (deliverAt renameAsk.prog 4 .int 1) = renameAsk.prog ∧ Sane renameAsk {} ∧
+def promptIntRun : St World := run genHandlers apEff relWorld {} (deliverAt renameAsk.prog 4 .int 1)
+
+/-- SIGINT while the confirmation prompt is active: exit 130 inside the handler, nothing changed, and the lock file
+    is removed by `release_held_locks` (one more traced call after the three pre-prompt ones). -/
+theorem prompt_exit_releases_lock :
+    erase (deliverAt renameAsk.prog 4 .int 1) = renameAsk.prog ∧
     promptIntRun.exited = some 130 ∧ promptIntRun.world.user = [] ∧ promptIntRun.world.history = 0 ∧
-    promptIntRun.world.lock = true ∧ ¬ Good renameAsk {} promptIntRun := by
-  refine ⟨by decide, by unfold Sane final; decide, by decide, by decide, by decide, by decide, ?_⟩
-  intro h
-  exact absurd h.2.1 (by decide)
+    promptIntRun.world.lock = false ∧ promptIntRun.world.calls = 4 ∧ Good renameAsk {} promptIntRun := by
+  refine ⟨by decide, by decide, by decide, by decide, by decide, by decide, ?_⟩
+  decide
 
 /-- SIGTERM at the same point only stores the flag; once the prompt is answered the operation completes, the lock
     is released and the status is 130. -/
 theorem sigterm_at_prompt_completes :
-    Good renameAsk {} (run genHandlers apEff {} (deliverAt renameAsk.prog 4 .term 1)) := by
-  refine ⟨Or.inr (by decide), by decide, by decide⟩
+    Good renameAsk {} (run genHandlers apEff relWorld {} (deliverAt renameAsk.prog 4 .term 1)) := by
+  decide
+
+/-- **Before d01db83.**  With the handler table as it was (exit under the prompt without releasing the held locks)
+    the same run leaves the lock file behind. -/
+theorem before_fix_prompt_lock_left :
+    (run oldHandlers apEff relWorld {} (deliverAt renameAsk.prog 4 .int 1)).exited = some 130 ∧
+    (run oldHandlers apEff relWorld {} (deliverAt renameAsk.prog 4 .int 1)).world.lock = true ∧
+    (run oldHandlers apEff relWorld {} (deliverAt renameAsk.prog 4 .int 1)).world.user = [] := by decide
 
 /-- `apply` of a stale plan: the first file is edited, the second does not match, the command stops with status 3
     (C04: the content edit is not rolled back) -/
 def staleApply : Cmd := { prog := [.eff .other, .eff (.user 0), .eff .other], res := 3 }
 
-/-- what the complete operation would have been -/
-def staleApplyComplete : List Nat := [0, 1]
+def staleTermRun : St World := run genHandlers apEff relWorld {} (deliverAt staleApply.prog 1 .term 1)
 
-/-- **Witness (finding failed_command_reports_130).**  A command that fails by itself over a partially changed
-    tree and received a signal reports 130 ("interrupted"), not its failure status: the tree is neither the one
-    before nor the complete one, there is no history entry. -/
-def staleTermRun : St World := run genHandlers apEff {} (deliverAt staleApply.prog 1 .term 1)
+/-- A command that fails by itself and received a signal: same world, same status 3 as without the signal. -/
+theorem failed_command_reports_failure :
+    Shape13 staleApply ∧ Sane staleApply {} ∧ genStatus staleApply.res staleTermRun = 3 ∧
+    staleTermRun.world = final staleApply {} ∧ Good staleApply {} staleTermRun := by
+  refine ⟨Or.inl (by decide), by unfold Sane final; decide, by decide, by decide, ?_⟩
+  decide
 
-theorem C13_witness_failed_reports_130 :
-    Sane staleApply {} ∧ genStatus staleApply.res staleTermRun = 130 ∧
-    genStatus staleApply.res (run genHandlers apEff {} staleApply.prog) = 3 ∧
-    staleTermRun.world.user ≠ [] ∧ staleTermRun.world.user ≠ staleApplyComplete ∧
-    staleTermRun.world.history = 0 ∧ ¬ Good staleApply {} staleTermRun := by
-  refine ⟨by unfold Sane final; decide, by decide, by decide, by decide, by decide, by decide, ?_⟩
-  intro h
-  rcases h.1 with h1 | h1
-  · exact absurd h1.1 (by decide)
-  · exact absurd h1.2 (by decide)
-
-/-- the full statement is false in the model of today's code -/
-theorem C13_full_is_false : ¬ C13_full := by
-  intro h
-  have := h renameAsk {} (deliverAt renameAsk.prog 4 .int 1) C13_witness_prompt_lock_left.2.1
-    C13_witness_prompt_lock_left.1 (by decide)
-  exact C13_witness_prompt_lock_left.2.2.2.2.2.2 this
+/-- **Before 279b830.**  With the flag tested before the result (`FlagScope.all`) the same run reports 130 over the
+    partially changed tree. -/
+theorem before_fix_failed_reports_130 :
+    status .all 130 staleApply.res staleTermRun = 130 ∧ staleTermRun.world.user = [0] ∧
+    staleTermRun.world.history = 0 := by decide
 
 end C13
